@@ -10,7 +10,7 @@ import (
 
 // ---- generator ------------------------------------------------------------------------------------------------------
 //
-// quick: the small exhaustive universe (every tree of ≤ 2 files from a pool of 12 × 4 context loaders / topologies × a fixed lookup
+// quick: the small exhaustive universe (every tree of ≤ 2 files from a pool of 13 × 4 context loaders / topologies × a fixed lookup
 // list and its reverse), the loader-kind universe (every tree of ≤ 2 files from a pool of 10 × 7 context loaders, genKinds),
 // ~480 random trees × 40 lookups, 300 smart-path ops; thorough: 4000 trees × 100 lookups, 6000 smart-path ops.
 
@@ -129,6 +129,9 @@ func randFile(r *rand.Rand, mods []string) genFile {
 		dir, addressable = "functions", false
 	case 5:
 		dir, addressable = "", false
+	case 6:
+		// a dot inside the stem: `thing.v2.pp` is indexed as `thing.v2`, never as `thing` (only the extension is cut off)
+		ext, addressable = []string{".v2.pp", ".pp.pp", ".x.y.pp"}[r.Intn(3)], false
 	}
 	fileSegs[last] += ext
 	path := append([]string{}, root...)
@@ -386,6 +389,8 @@ var smallPool = []file{
 	{segs: []string{"modules", "mymod", "types", "wrong.pp"}, body: body{kind: "object", name: "Mymod::Thing"}},
 	{segs: []string{"env", "types", "Mymod.pp"}, body: body{kind: "alias", name: "Mymod"}},
 	{segs: []string{"modules", "other", "types", "mymod.pp"}, body: body{kind: "object", name: "Other::Mymod"}},
+	// a dot inside the stem: this file is NOT the file of `Thing` (sweep survivor smartpath.go:127, notes/C15-mutation-sweep.md)
+	{segs: []string{"env", "types", "thing.v2.pp"}, body: body{kind: "alias", name: "Thing"}},
 }
 
 var smallLookups = []string{"Thing", "thing", "Mymod::Thing", "MYMOD::THING", "Mymod", "Mymod::Ta", "Mymod::Deep", "Mymod::Sub::Deep",
